@@ -28,12 +28,16 @@ TABLE = [
 ]
 
 
+CONFORMANCE = {"_sumifs.bool_to_int": [{"i": True}, {"i": 5}, {"i": "x"}], "_when_cell_is_empty_cast_to_zero.elt": [{"i": {"$e": 1}}, {"i": 3}], "_sumifs.keep_filter": [{"i": None}, {"i": 0}]}
+
+
 def run(ctx):
     res = PropResult('C12')
     K.k1_block(res, ctx, MOD, K1, 'C12.')
     schema.run_table(res, 'C12', TABLE)
     K.canary_contract(res, MOD, '_sumifs.select/1', 'selected',
                       'is_list(result) and all(result[j] == old(sum_range)[j] for j in range(len(result)))')
+    K.conformance(res, 'contracts.rt', CONFORMANCE)
     K.monitor_if_present(res, ctx, 'mon_c12')
     res.trusted_base += ['L-SUBST', 'A-ACYCLIC']
     res.assumptions += ['criteria are abstract total callables in the K1 contracts (their text is produced by interpolation and '
